@@ -316,12 +316,15 @@ Fixpoint loop16 (fuel : nat) (f : bytes) (s : st) (w width : Z) : result st :=
 
 (* the plane de-interleaving loops, written as the list they fill *)
 Fixpoint zrange (n : nat) : list Z := match n with O => [] | S m => zrange m ++ [Z.of_nat m] end.
+(* rows of the BMP pixel array are padded to a multiple of 4 bytes *)
+Definition row_stride (n : Z) : Z := (n + 3) / 4 * 4.
 Definition mix16 (data : bytes) (w h : Z) : result bytes :=
   collect (map (fun y =>
-    collect (map (fun x =>
+    let! row := collect (map (fun x =>
       let! u := get_idx data (y * (w * 2) + w + x) in
       let! l := get_idx data (y * (w * 2) + x) in
-      Ok [u; l]) (zrange (Z.to_nat w)))) (zrange (Z.to_nat h))).
+      Ok [u; l]) (zrange (Z.to_nat w))) in
+    Ok (row ++ zeros (Z.to_nat (row_stride (w * 2) - w * 2)))) (zrange (Z.to_nat h))).
 
 Definition decode_compressed16 (f : bytes) (w h width : Z) : result bytes :=
   let! data := bytearray (width * h) in
@@ -369,16 +372,17 @@ Fixpoint loop24 (fuel : nat) (f : bytes) (s : st) (width : Z) : result st :=
 
 Definition mix24 (data : bytes) (w h : Z) : result bytes :=
   collect (map (fun y =>
-    collect (map (fun x =>
+    let! row := collect (map (fun x =>
       let! r := get_idx data (y * (w * 4) + w * 3 + x) in
       let! g := get_idx data (y * (w * 4) + w * 2 + x) in
       let! b := get_idx data (y * (w * 4) + w + x) in
-      Ok [r; g; b]) (zrange (Z.to_nat w)))) (zrange (Z.to_nat h))).
+      Ok [r; g; b]) (zrange (Z.to_nat w))) in
+    Ok (row ++ zeros (Z.to_nat (row_stride (w * 3) - w * 3)))) (zrange (Z.to_nat h))).
 
 Definition decode_compressed24 (f : bytes) (w h width : Z) : result bytes :=
   let! data := bytearray (width * h) in
   let! s := loop24 (S (length f)) f (Build_st data 0 (h - 1) 0) width in
-  let! _ := bytearray (w * 3 * h) in
+  let! _ := bytearray (row_stride (w * 3) * h) in
   mix24 (s_data s) w h.
 
 Definition parts24 (f : bytes) (bw bh pw ph : Z) : list part :=
